@@ -2,6 +2,7 @@
 """Regenerate MANIFEST.json from the rule modules present under sa/props (keeps it valid at all times)."""
 import importlib, json, os, sys
 sys.path.insert(0, os.path.dirname(os.path.abspath(__file__)))
+from sa.kit import _added
 props = [json.loads(l) for l in open("properties.jsonl")]
 checks, na, served = [], [], []
 for p in props:
@@ -26,7 +27,7 @@ for p in props:
         "level_claimed": {
             "category": "other",
             "text": "Static analysis of the resolved program (all paths of the anchored functions, all call sites of the anchored "
-                    "callees): " + m["explanation"] + " NOT decided: " + m.get("not_decided", "-"),
+                    "callees): " + m["explanation"] + _added(pid) + " NOT decided: " + m.get("not_decided", "-"),
             "design_ref": "DESIGN.md section 3, " + pid,
         },
         "level_note": "Decides structural necessary conditions of the property, not the behavioural statement. Trusted: clang-14 -O0 "
